@@ -394,11 +394,18 @@ type ledgerWorld struct {
 	gWd       map[string]*big.Int
 	gSl       map[string]*big.Int
 	orphans   bool // a known-finding directed scenario left orphaned records behind
+	nstMode   bool // history with native-restaking balance adjustments: not replayed by the Lean model (monitors only)
 }
 
 func (w *ledgerWorld) emit(op, obs string) {
-	w.env.Op(op, obs)
 	w.hist = append(w.hist, op)
+	if w.nstMode {
+		// the NST balance-update branch (UpdateNSTBalance) is not in the Lean model yet: histories that
+		// use it are judged by the monitors alone and are not sent to the model driver
+		w.env.Outcome("unmodelled-op")
+		return
+	}
+	w.env.Op(op, obs)
 }
 
 func bigPow10(n int) *big.Int { return new(big.Int).Exp(big.NewInt(10), big.NewInt(int64(n)), nil) }
@@ -509,7 +516,11 @@ func domLedger(env *Env) error {
 				Price: fmt.Sprint(1 + rng.Intn(3000)), PriceDec: int32(rng.Intn(3))})
 		}
 		c := NewChain(cfg)
-		w := &ledgerWorld{c: c, env: env, rng: rng, assets: cfg.Assets, nonce: 1, huge: huge,
+		nstMode := !huge && rng.Chance(1, 5)
+		if nstMode {
+			env.Outcome("history.nst-adjustments")
+		}
+		w := &ledgerWorld{c: c, env: env, rng: rng, assets: cfg.Assets, nonce: 1, huge: huge, nstMode: nstMode,
 			gDep: map[string]*big.Int{}, gWd: map[string]*big.Int{}, gSl: map[string]*big.Int{}}
 		for _, o := range c.Operators {
 			w.ops = append(w.ops, o.Acc)
@@ -745,7 +756,12 @@ func (w *ledgerWorld) step(prev *ledgerSnap, kinds map[string]int) *ledgerSnap {
 	if forcedKind >= 0 {
 		kind = forcedKind
 	}
+	if w.nstMode && forcedKind < 0 && !native && r.Chance(1, 5) {
+		kind = 9
+	}
 	switch kind {
+	case 9: // native-restaking balance adjustment (what the oracle's balance-change message triggers)
+		after = w.nstAdjust(prev, sid, asset)
 	case 0: // deposit
 		x := w.amount(nil)
 		if forcedAmt > 0 {
@@ -1443,4 +1459,114 @@ func (w *ledgerWorld) directedZeroPool() {
 	errC := delegate(stC, sdkmath.NewInt(5))
 	errA := undelegate(stA, sdkmath.NewInt(1), 1<<41+1)
 	w.env.Outcome(fmt.Sprintf("f02a.after:delegate=%s,undelegate=%s", ledgerErrClass(errC), ledgerErrClass(errA)))
+}
+
+// nstAdjust calls the delegation keeper's UpdateNSTBalance for (staker, asset) with a boundary-biased
+// amount and checks C01's adjustment clause on the real before/after: a positive adjustment adds
+// exactly x to the staker's deposit and withdrawable balance; a negative one removes
+// cut = min(|x|, everything the staker has) — first from the withdrawable balance, then from what its
+// pending undelegations still owe, then from its delegated positions — and the ledger value of the
+// asset falls by exactly the amount the staker's total deposit falls; nobody else's figures move
+// except the pools the staker's shares are removed from.
+func (w *ledgerWorld) nstAdjust(prev *ledgerSnap, sid, asset string) *ledgerSnap {
+	c, r := w.c, w.rng
+	row := prev.stakers[sid+"/"+asset]
+	wd, pend := new(big.Int), new(big.Int)
+	if row.withdrawable != nil {
+		wd = row.withdrawable
+	}
+	for _, rc := range prev.recs {
+		if rc.staker == sid && rc.asset == asset {
+			pend.Add(pend, rc.actual)
+		}
+	}
+	var x *big.Int
+	switch r.Intn(8) {
+	case 0:
+		x = big.NewInt(int64(1 + r.Intn(1000)))
+	case 1:
+		x = new(big.Int).Neg(big.NewInt(int64(1 + r.Intn(3))))
+	case 2: // part of the withdrawable balance
+		x = new(big.Int).Neg(r.BigBelow(new(big.Int).Add(wd, big.NewInt(1))))
+	case 3: // exactly the withdrawable balance
+		x = new(big.Int).Neg(wd)
+	case 4, 5: // ends inside the pending undelegations
+		x = new(big.Int).Neg(new(big.Int).Add(wd, r.BigBelow(new(big.Int).Add(pend, big.NewInt(1)))))
+	case 6: // withdrawable + everything pending + a little of the delegated positions
+		x = new(big.Int).Neg(new(big.Int).Add(new(big.Int).Add(wd, pend), big.NewInt(int64(r.Intn(1000)))))
+	default: // more than the staker can have
+		x = new(big.Int).Neg(new(big.Int).Add(new(big.Int).Add(wd, pend), new(big.Int).Exp(big.NewInt(10), big.NewInt(30), nil)))
+	}
+	err := c.CachedDo(func(ctx sdk.Context) error {
+		return c.App.DelegationKeeper.UpdateNSTBalance(ctx, sid, asset, sdkmath.NewIntFromBigInt(x))
+	})
+	after := w.snapAndCheck()
+	w.emit(fmt.Sprintf("ledger.nstadjust %s %s %s", sid, asset, x), "-")
+	w.env.Outcome("nstadjust." + ledgerErrClass(err))
+	after.checkInvariants(w.env, w.hist, w.orphans)
+	w.env.Eval("C01.nst-adjustment")
+	viol := func(sig, what string) { w.env.Violate("C01.nst-adjustment", sig, what, w.hist) }
+	dv := new(big.Int).Sub(after.valueOf(asset), prev.valueOf(asset))
+	tot := func(s *ledgerSnap) *big.Int {
+		if v, ok := s.stakers[sid+"/"+asset]; ok && v.total != nil {
+			return v.total
+		}
+		return new(big.Int)
+	}
+	dt := new(big.Int).Sub(tot(after), tot(prev))
+	if err != nil {
+		if dv.Sign() != 0 || dt.Sign() != 0 {
+			viol("nst-rejected-but-changed", fmt.Sprintf("UpdateNSTBalance(%s) was refused (%v) but the ledger value changed by %s", x, err, dv))
+		}
+		return after
+	}
+	if dv.Cmp(dt) != 0 {
+		viol("nst-value-vs-deposit", fmt.Sprintf("UpdateNSTBalance(%s): ledger value of %s changed by %s but the staker's total deposit by %s", x, asset, dv, dt))
+	}
+	if x.Sign() > 0 && dv.Cmp(x) != 0 {
+		viol("nst-increase", fmt.Sprintf("UpdateNSTBalance(+%s) changed the ledger value by %s", x, dv))
+	}
+	if x.Sign() < 0 {
+		if dv.Sign() > 0 || dv.Cmp(x) < 0 {
+			viol("nst-decrease-range", fmt.Sprintf("UpdateNSTBalance(%s) changed the ledger value by %s (must be in [x, 0])", x, dv))
+		}
+		if dv.Cmp(x) != 0 {
+			// not everything could be taken: then nothing may be left in the first two buckets
+			arow := after.stakers[sid+"/"+asset]
+			left := new(big.Int)
+			if arow.withdrawable != nil {
+				left.Add(left, arow.withdrawable)
+			}
+			for _, rc := range after.recs {
+				if rc.staker == sid && rc.asset == asset {
+					left.Add(left, rc.actual)
+				}
+			}
+			if left.Sign() != 0 {
+				viol("nst-decrease-incomplete", fmt.Sprintf("UpdateNSTBalance(%s) removed only %s although withdrawable + pending still hold %s", x, dv, left))
+			}
+		}
+	}
+	// frame: other stakers' rows and other stakers' records are untouched
+	for k, b := range prev.stakers {
+		if k != sid+"/"+asset {
+			if a, ok := after.stakers[k]; !ok || a.total.Cmp(b.total) != 0 || a.withdrawable.Cmp(b.withdrawable) != 0 || a.pending.Cmp(b.pending) != 0 {
+				viol("nst-frame-staker", "UpdateNSTBalance changed the row of "+k)
+			}
+		}
+	}
+	for k, b := range prev.recs {
+		a, ok := after.recs[k]
+		if !ok {
+			viol("nst-frame-record", "UpdateNSTBalance removed record "+k)
+			continue
+		}
+		if (b.staker != sid || b.asset != asset) && a.actual.Cmp(b.actual) != 0 {
+			viol("nst-frame-record", "UpdateNSTBalance changed the record "+k+" of another staker/asset")
+		}
+		if a.amount.Cmp(b.amount) != 0 || a.actual.Cmp(b.actual) > 0 {
+			viol("nst-frame-record", "UpdateNSTBalance raised what record "+k+" owes or changed its amount")
+		}
+	}
+	return after
 }
